@@ -10,7 +10,7 @@
        `_function_of_seed` theorems say the little that can be said: a seeded model consults the
        generator at its own seed only, so two generators that agree there give the same frame. *)
 From Coq Require Import Reals QArith Qcanon.
-From LV Require Import Lib.Cis Proofs.NoiseP.
+From LV Require Import Lib.Cis Proofs.NoiseP Proofs.NoiseEntryP.
 
 (* ---- (a) ---- *)
 Theorem C18_shot_noise_function_of_seed :
@@ -192,6 +192,184 @@ Theorem C18_cosmic_rays_index_error :
     cosmic_rays n m rays = Err IndexError.
 Proof. exact cosmic_index_error. Qed.
 Print Assumptions C18_cosmic_rays_index_error.
+
+(* ==================================================================================================
+   Public entry points (Model/NoiseEntry.v): argument validation, refusal order, shape bookkeeping,
+   the glue between entry point and kernel.  Oracle contract used: default_rng(seed) raises
+   ValueError for a negative integer (alone or in a sequence) and TypeError for a float;
+   Generator.normal refuses a negative scale, np.ones / Generator.lognormal a negative dimension.
+   ================================================================================================== *)
+
+(* default_rng(seed): which seeds are accepted and which exception otherwise *)
+Theorem C18_seed_validation :
+  forall s,
+    (seed_check s = Ok tt <->
+       match s with SeedInt z => 0 <= z | SeedList l => Forall (fun z => 0 <= z) l | SeedFloat => False end) /\
+    (seed_check s = Ok tt \/
+     seed_check s = Err (match s with SeedFloat => TypeError | _ => ValueError end)).
+Proof. exact seed_validation_x. Qed.
+Print Assumptions C18_seed_validation.
+Example C18_seed_validation_nonvacuous :
+  seed_check (SeedInt 0) = Ok tt /\ seed_check (SeedList [3; -1]) = Err ValueError /\ seed_check SeedFloat = Err TypeError.
+Proof. repeat split. Qed.
+
+(* shot_noise, the whole entry point: 1. a method string other than exactly 'poisson' / 'gaussian'
+   is an AssertionError whatever the seed and the frame; 2. then the seed's error whatever the
+   frame; 3. then the kernel of the method; 4. a frame is accepted iff all of method, seed and
+   0 <= counts <= LAM_MAX hold, and a bad frame is a ValueError.  Nothing else can happen. *)
+Theorem C18_shot_noise_entry_refusal_order :
+  forall (rng : egenerator) (sq img : arr QS) m s,
+    (m <> str_poisson /\ m <> str_gaussian -> shot_noise_entry rng sq img m s = Err AssertionErr) /\
+    (m = str_poisson \/ m = str_gaussian -> forall e, seed_check s = Err e ->
+       shot_noise_entry rng sq img m s = Err e) /\
+    (m = str_poisson -> seed_check s = Ok tt ->
+       shot_noise_entry rng sq img m s = shot_to_result (shot_poisson img (rng s (ReqPoisson img)))) /\
+    (m = str_gaussian -> seed_check s = Ok tt ->
+       shot_noise_entry rng sq img m s = shot_to_result (shot_gaussian true img (rng s (ReqNormalArr img sq)))) /\
+    ((exists f, shot_noise_entry rng sq img m s = Ok f) <->
+       (m = str_poisson \/ m = str_gaussian) /\ seed_check s = Ok tt /\
+       forall i j, 0 <= i < nr img /\ 0 <= j < nc img -> (0 <= get img i j)%Qc /\ (get img i j <= LAM_MAX)%Qc) /\
+    ((m = str_poisson \/ m = str_gaussian) -> seed_check s = Ok tt ->
+       ~ (forall i j, 0 <= i < nr img /\ 0 <= j < nc img -> (0 <= get img i j)%Qc /\ (get img i j <= LAM_MAX)%Qc) ->
+       shot_noise_entry rng sq img m s = Err ValueError).
+Proof. exact shot_noise_entry_x. Qed.
+Print Assumptions C18_shot_noise_entry_refusal_order.
+(* 'Poisson' (capital P) with a negative seed and a negative frame: AssertionError wins; 'poisson': the seed's ValueError *)
+Example C18_shot_noise_entry_nonvacuous :
+  let img := @aconst QS 1 2 (Q2Qc (-1 # 1)) in
+  shot_noise_entry (fun _ _ => img) img img [80; 111; 105; 115; 115; 111; 110] (SeedInt (-1)) = Err AssertionErr /\
+  shot_noise_entry (fun _ _ => img) img img str_poisson (SeedInt (-1)) = Err ValueError /\
+  shot_noise_entry (fun _ _ => img) img img str_poisson SeedFloat = Err TypeError.
+Proof. repeat split. Qed.
+
+(* read_noise: seed first, then the scale; accepted iff seed valid and electrons >= 0; then img + draw *)
+Theorem C18_read_noise_entry :
+  forall (rng : egenerator) (img : arr QS) e s,
+    (forall err, seed_check s = Err err -> read_noise_entry rng img e s = Err err) /\
+    (seed_check s = Ok tt -> (e < 0)%Qc -> read_noise_entry rng img e s = Err ValueError) /\
+    (seed_check s = Ok tt -> (0 <= e)%Qc ->
+       read_noise_entry rng img e s = Ok (read_noise img (rng s (ReqNormal 0%Qc e (nr img) (nc img))))) /\
+    ((exists f, read_noise_entry rng img e s = Ok f) <-> seed_check s = Ok tt /\ (0 <= e)%Qc).
+Proof. exact read_noise_entry_x. Qed.
+Print Assumptions C18_read_noise_entry.
+Example C18_read_noise_entry_nonvacuous :
+  let img := @aconst QS 2 3 1%Qc in
+  read_noise_entry (fun _ _ => img) img (Q2Qc (-1 # 2)) (SeedInt 5) = Err ValueError /\
+  exists f, read_noise_entry (fun _ _ => img) img (Q2Qc (5 # 2)) (SeedList [1; 2]) = Ok f.
+Proof. split; [reflexivity | eexists; reflexivity]. Qed.
+
+(* dark_current without pattern noise (fpn_factor not > 0), every shape form (int k, any sequence of
+   ints, the empty tuple): the generator and the seed are never consulted - two calls with different
+   generators and different (even invalid) seeds agree; the frame has the requested dimensions and
+   is floor(rate) everywhere; a negative dimension is a ValueError *)
+Theorem C18_dark_current_no_fpn_ignores_generator_and_seed :
+  forall rate shape fpn,
+    ~ (0 < fpn)%Qc ->
+    (forall (rng1 rng2 : fgenerator) s1 s2,
+       dark_current_entry rng1 rate shape fpn s1 = dark_current_entry rng2 rate shape fpn s2) /\
+    (forall rng s, Forall (fun d => 0 <= d) (shape_dims shape) ->
+       exists f, dark_current_entry rng rate shape fpn s = Ok f /\ fdims f = shape_dims shape /\
+                 forall k, fget f k = Qfloor rate) /\
+    (forall rng s, ~ Forall (fun d => 0 <= d) (shape_dims shape) ->
+       dark_current_entry rng rate shape fpn s = Err ValueError).
+Proof. exact dark_entry_no_fpn_x. Qed.
+Print Assumptions C18_dark_current_no_fpn_ignores_generator_and_seed.
+Example C18_dark_current_no_fpn_nonvacuous :
+  (exists f, dark_current_entry (fun _ _ _ => 1%Qc) (Q2Qc (1007 # 10)) (ShapeInt 5) 0%Qc SeedFloat = Ok f
+             /\ fdims f = [5] /\ fget f 3 = 100) /\
+  dark_current_entry (fun _ _ _ => 1%Qc) 1%Qc (ShapeDims [2; -3]) 0%Qc (SeedInt 1) = Err ValueError.
+Proof. split; [eexists; repeat split | reflexivity]. Qed.
+
+(* with pattern noise: seed first, then the dimensions, then floor(rate * draw) on the requested dimensions *)
+Theorem C18_dark_current_fpn_entry :
+  forall (rng : fgenerator) rate shape fpn s,
+    (0 < fpn)%Qc ->
+    (forall e, seed_check s = Err e -> dark_current_entry rng rate shape fpn s = Err e) /\
+    (seed_check s = Ok tt -> ~ Forall (fun d => 0 <= d) (shape_dims shape) ->
+       dark_current_entry rng rate shape fpn s = Err ValueError) /\
+    (seed_check s = Ok tt -> Forall (fun d => 0 <= d) (shape_dims shape) ->
+       exists f, dark_current_entry rng rate shape fpn s = Ok f /\ fdims f = shape_dims shape /\
+         forall k, fget f k = Qfloor (rate * rng s (fpn, shape_dims shape) k)%Qc).
+Proof. exact dark_entry_fpn_x. Qed.
+Print Assumptions C18_dark_current_fpn_entry.
+Example C18_dark_current_fpn_nonvacuous :
+  dark_current_entry (fun _ _ _ => 1%Qc) 1%Qc (ShapeDims [2; 3]) (Q2Qc (1 # 4)) (SeedInt (-1)) = Err ValueError /\
+  exists f, dark_current_entry (fun _ _ k => Q2Qc (k # 2)) (Q2Qc (7 # 1)) (ShapeDims [2; 1; 2]) (Q2Qc (1 # 4)) (SeedInt 2) = Ok f
+            /\ fdims f = [2; 1; 2] /\ fget f 3 = 10.
+Proof. split; [reflexivity | eexists; repeat split]. Qed.
+
+(* rank 2 is the frame of Model/Noise.v (row-major flat index), so C18_dark_no_fpn / C18_dark_fpn_floor_nonneg apply *)
+Theorem C18_dark_current_rank2_agrees :
+  forall (rng : fgenerator) rate n m fpn s (draw : arr QS) f,
+    (forall i j, get draw i j = rng s (fpn, [n; m]) (i * m + j)) ->
+    dark_current_entry rng rate (ShapeDims [n; m]) fpn s = Ok f ->
+    fdims f = [n; m] /\ forall i j, fget f (i * m + j) = get (dark_current rate n m fpn draw) i j.
+Proof. exact dark_entry_2d. Qed.
+Print Assumptions C18_dark_current_rank2_agrees.
+
+(* power_spectrum: seed first; a mask that is not 2-d, or is empty, is a ValueError; otherwise exactly
+   the kernel C18_power_spectrum_rms speaks about, on the mask's shape *)
+Theorem C18_power_spectrum_entry :
+  forall (S : Scalar) isz nrm (filt : seed -> arr S) mdims (mask : arr S) rms s,
+    (forall e, seed_check s = Err e -> power_spectrum_entry isz nrm filt mdims mask rms s = Err e) /\
+    (seed_check s = Ok tt -> (forall n m, mdims = [n; m] -> n = 0 \/ m = 0) ->
+       power_spectrum_entry isz nrm filt mdims mask rms s = Err ValueError) /\
+    (forall n m, seed_check s = Ok tt -> mdims = [n; m] -> n <> 0 -> m <> 0 ->
+       power_spectrum_entry isz nrm filt mdims mask rms s
+       = Ok (power_spectrum_post isz nrm (filt s) (mkArr n m (get mask)) rms)).
+Proof. exact power_spectrum_entry_x. Qed.
+Print Assumptions C18_power_spectrum_entry.
+Example C18_power_spectrum_entry_nonvacuous :
+  let a := @aconst ZS 2 3 1 in
+  power_spectrum_entry (S := ZS) (fun x : Z => x =? 0) (fun _ _ => 1) (fun _ => a) [5] a 1 (SeedInt 1) = Err ValueError /\
+  power_spectrum_entry (S := ZS) (fun x : Z => x =? 0) (fun _ _ => 1) (fun _ => a) [2; 3] a 1 SeedFloat = Err TypeError /\
+  exists o, power_spectrum_entry (S := ZS) (fun x : Z => x =? 0) (fun _ _ => 1) (fun _ => a) [2; 3] a 1 (SeedInt 1) = Ok (Some o).
+Proof. split; [reflexivity|]. split; [reflexivity|]. eexists. reflexivity. Qed.
+
+(* cosmic_rays, number of rays: x = expected number (area * rate * ts); x >= 1: int(x), i.e. the
+   integer with k <= x < k+1; x < 1: one uniform draw u decides, one ray iff u <= x; never negative *)
+Theorem C18_cosmic_nrays :
+  forall x u : Qc,
+    ((1 <= x)%Qc -> nrays x u = Z.quot (Qnum x) (Zpos (Qden x)) /\ 1 <= nrays x u /\
+                   (inject_Z (nrays x u) <= x)%Q /\ (x < inject_Z (nrays x u + 1))%Q) /\
+    ((x < 1)%Qc -> (u <= x)%Qc -> nrays x u = 1) /\
+    ((x < 1)%Qc -> (x < u)%Qc -> nrays x u = 0) /\
+    0 <= nrays x u.
+Proof. exact nrays_spec. Qed.
+Print Assumptions C18_cosmic_nrays.
+Example C18_cosmic_nrays_nonvacuous :
+  nrays (Q2Qc (7 # 2)) 0%Qc = 3 /\ nrays (Q2Qc (1 # 2)) (Q2Qc (1 # 4)) = 1 /\ nrays (Q2Qc (1 # 2)) (Q2Qc (3 # 4)) = 0
+  /\ nrays (Q2Qc (-2 # 1)) 0%Qc = 0.
+Proof. repeat split. Qed.
+
+(* the frame is the sum of exactly the first nrays candidate rays (each with the flux its particle draw
+   selects), and the global generator is advanced by one draw when fewer than one ray is expected
+   plus five draws per ray *)
+Theorem C18_cosmic_generator_consumption :
+  forall (S : Scalar) gt09 n m x u (alpha proton : S) (rays : list (@ray S)),
+    cosmic_rays_entry gt09 n m x u alpha proton rays
+    = (cosmic_rays n m (map (ray_deposits gt09 alpha proton) (firstn (Z.to_nat (nrays x u)) rays)),
+       draws_consumed x (nrays x u)) /\
+    ((x < 1)%Qc -> draws_consumed x (nrays x u) = 1 + 5 * nrays x u) /\
+    ((1 <= x)%Qc -> draws_consumed x (nrays x u) = 5 * nrays x u).
+Proof. exact cosmic_generator_consumption_x. Qed.
+Print Assumptions C18_cosmic_generator_consumption.
+
+(* with non-negative fluxes the entry-level frame has the requested shape and is non-negative, whichever
+   particle each draw selects *)
+Theorem C18_cosmic_entry_shape_nonneg :
+  forall (gt09 : K RS -> bool) n m x u (alpha proton : K RS) (rays : list (@ray RS)) frame,
+    (0 <= alpha)%R -> (0 <= proton)%R ->
+    (forall r t, In r rays -> In t (rsegs r) -> exists q, snd t = sqrt q) ->
+    fst (cosmic_rays_entry gt09 n m x u alpha proton rays) = Ok frame ->
+    nr frame = n /\ nc frame = m /\ forall i j, (0 <= get frame i j)%R.
+Proof. exact cosmic_entry_nonneg. Qed.
+Print Assumptions C18_cosmic_entry_shape_nonneg.
+Example C18_cosmic_entry_nonvacuous :
+  let r := @mkRay ZS 1 [(0, 1, 3); (-1, 0, 2)] in
+  exists f, cosmic_rays_entry (S := ZS) (fun p : Z => 0 <? p) 2 2 (Q2Qc (5 # 2)) 0%Qc 4 1 [r; r; r] = (Ok f, 10)
+            /\ get f 0 1 = 24 /\ get f 1 0 = 16.
+Proof. eexists. repeat split. Qed.
 
 (* ---- non-vacuity: a 2x3 (non-square) masked draw with a hole satisfies the hypothesis of
    C18_power_spectrum_rms ---- *)
